@@ -751,9 +751,6 @@ def dump_one(f: TextIO, data: IOData):
             # convert to FCHK basis conventions, as is done for the orbital coefficients
             permutation, signs = convert_conventions(data.obasis, CONVENTIONS)
             arr = arr[permutation][:, permutation] * signs.reshape(-1, 1) * signs
-        # get lower triangular elements of RDM
-        mat = arr[np.tril_indices(arr.shape[0])]
-
         # identify type of RDMs
         if key == "scf":
             title = "Total SCF Density"
@@ -764,7 +761,10 @@ def dump_one(f: TextIO, data: IOData):
         elif key == "post_scf_spin_ao":
             title = f"Spin {level} Density"
         else:
-            title = "Total SCF Density"
+            # A density matrix the FCHK format has no field for.
+            continue
+        # get lower triangular elements of RDM
+        mat = arr[np.tril_indices(arr.shape[0])]
         _dump_real_arrays(title, mat, f)
 
     # write atomic charges
